@@ -274,7 +274,7 @@ def main(tier):
          "event mode: the server reacts completely before the oracle looks",
          "ending the connection counts as refusing the request"])
     cs = cases(tier)
-    ck.merge(core.pmap(enum.chunks(cs, max(64, len(cs) // 24)), work, init=A.spread_pin))
+    ck.merge(core.pmap(enum.chunks(cs, max(64, len(cs) // 12)), work, init=A.worker_init))
     ck.extra["bound"] = {"stages": [s[0] for s in STAGES] + [CONTROL[0]],
                          "modes": ["plain", "burst (message + successful login in flight together)",
                                    "after-refused-open", "then-login (refused open, login, message)"],
